@@ -290,6 +290,26 @@ def method_set(tier):
 W_CHUNKS = [[], ["a"], ["ab", "", "c"], ["é€", "\U0001d11e"], ["0123456789" * 3, "x"], ["\0", "z"]]
 
 
+def _fixed_sizes(ci):
+    """buffer sizes handed to diplomat_simple_write for chunk list ci: exact fit (text + terminator), and one byte short"""
+    n = len("".join(W_CHUNKS[ci]).encode("utf8"))
+    return [("fx", n + 1)] + ([("fs", n)] if n >= 1 else [])
+
+
+def _fixed_model(chunks, cap):
+    """reference model of a fixed writer of capacity cap: whole chunks until the first one that does not fit; sticky afterwards"""
+    got, failed = b"", 0
+    for c in chunks:
+        b = c.encode("utf8")
+        if failed:
+            continue
+        if len(got) + len(b) > cap:
+            failed = 1
+            continue
+        got += b
+    return got, failed
+
+
 def cases_for(m):
     """value tuples (one per param) + selector values for returns"""
     few = m.get("few")
@@ -592,6 +612,12 @@ def c_case(m, j, case):
             body.append('printf(" ");')
         body.append("dump_slice((const unsigned char*)diplomat_buffer_write_get_bytes(w), diplomat_buffer_write_len(w), 1);")
         body.append("diplomat_buffer_write_destroy(w);")
+        # the same call through caller-owned fixed writers: exact fit (text + NUL) and one byte short
+        for tag, size in _fixed_sizes(ci):
+            body.append("{ unsigned char fb[%d]; memset(fb, 0xAA, sizeof fb); DiplomatWrite fw = diplomat_simple_write((char*)fb + 4, %d);" % (size + 8, size))
+            body.append("%s%s(%s);" % ("(void)" if m["ret"] is not None else "", fn, ", ".join(args[:-1] + ["&fw"])))
+            body.append('printf(" %s f=%%d z=%%d g=%%d ", (int)fw.grow_failed, (int)fb[4 + fw.len], (int)(fb[3] == 0xAA && fb[%d] == 0xAA));' % (tag, size + 4))
+            body.append("dump_slice(fb + 4, fw.len, 1); }")
     elif k == "CB":
         body.append("verif_sel(%d);" % j)
         body.append("CB_CASE = %d; CB_CALLS = 0; CB_DESTROYED = 0;" % j)
@@ -617,7 +643,7 @@ def c_callback_fn(m):
     return "static %s cbfn_%d(%s) { %s }" % (rty, i, params, " ".join(body))
 
 
-def expected_line(m, j, case):
+def expected_line(m, j, case, fixed=True):
     """the oracle: what the driver must print for this case (computed from Rust source-level meaning only)"""
     i, k = m["i"], m["kind"]
     if k == "P":
@@ -633,7 +659,13 @@ def expected_line(m, j, case):
         text = "".join(W_CHUNKS[ci]).encode("utf8")
         w = "[%d:%s]" % (len(text), text.hex())
         pre = (m["ret"].dump(rv) + " ") if m["ret"] else ""
-        return "W %d %d | %s%s | CALL %d:%s~" % (i, j, pre, w, i, ";".join(t.dump(v) for t, v in zip(m["params"], pv)))
+        call = "CALL %d:%s~" % (i, ";".join(t.dump(v) for t, v in zip(m["params"], pv)))
+        sizes = _fixed_sizes(ci) if fixed else []
+        ftext = ""
+        for tag, size in sizes:
+            got, failed = _fixed_model(W_CHUNKS[ci], size - 1)
+            ftext += " %s f=%d z=0 g=1 [%d:%s]" % (tag, failed, len(got), got.hex())
+        return "W %d %d | %s%s%s | %s" % (i, j, pre, w, ftext, call * (1 + len(sizes)))
     if k == "CB":
         args, rv = case
         r = "cbret()" if m["ret"] is None else "cbret(%s)" % m["ret"].dump(rv)
@@ -814,7 +846,7 @@ def cpp_case(types, m, j, case):
 
 
 def expected_line_cpp(m, j, case):
-    e = expected_line(m, j, case)
+    e = expected_line(m, j, case, fixed=False)   # the C++ API has no caller-owned fixed writer
     if m["kind"] == "W" and isinstance(m["ret"], A.NullableRet):
         ci, pv, rv = case
         if rv is None:
